@@ -264,9 +264,12 @@ def check_decode_and_errors(out, client, gui_name, cls_name, size, rng, tier):
     codes, decoders, noise_directions = gui_maps()
     cls = codes[gui_name]
     names = list(cls.deformation_names)
-    code_def = 'None' if not names or rng.random() < 0.6 else names[0]
-    noise_def = 'None' if not names or rng.random() < 0.6 else names[0]
+    code_def = 'None' if not names or rng.random() < 0.5 else names[0]
+    noise_def = 'None' if not names or rng.random() < 0.5 else names[0]
     noise = str(rng.choice(list(noise_directions)))
+    if code_def != noise_def:
+        noise = str(rng.choice(['Pure X', 'Pure Z', 'Pure X', 'Pure Y',
+                                'Depolarizing']))
     p = float(rng.choice([0.05, 0.1, 0.3]))
     base = {'Lx': size[0], 'Ly': size[1],
             'Lz': size[2] if len(size) == 3 else size[1],
@@ -402,7 +405,7 @@ def run_data(task, out):
             check_code_data(out, client, gui_name, cls_name, size, dname,
                             rotated, task['coprime'])
     if code.n <= (120 if task['tier'] == 'quick' else 400):
-        reps = 1 if task['tier'] == 'quick' else 3
+        reps = 3 if task['tier'] == 'quick' else 8
         for _ in range(reps):
             check_decode_and_errors(out, client, gui_name, cls_name, size,
                                     rng, task['tier'])
